@@ -10,6 +10,7 @@ import (
 	"github.com/alttpo/snes/emulator/bus"
 	"github.com/alttpo/snes/emulator/cpu65c816"
 	"github.com/alttpo/snes/emulator/cpualt"
+	"github.com/alttpo/snes/emulator/memory"
 
 	"verif/sim"
 )
@@ -198,8 +199,19 @@ type Machine struct {
 	Mem *SimMem // the single device behind the whole address space
 	// second device for partially attached configurations (cpualt open bus experiments)
 	busA    *bus.Bus
+	busPool *pooledBus
 	altB    *cpualt.CPU
 	altPool *pooledAlt
+}
+
+// AttachOver puts another device over [lo,hi] of a bus machine for this run; the pooled bus
+// gets its own device back there before its next use.
+func (m *Machine) AttachOver(dev memory.Memory, name string, lo, hi uint32) error {
+	if err := m.busA.Attach(dev, name, lo, hi); err != nil {
+		return err
+	}
+	m.busPool.over = append(m.busPool.over, [2]uint32{lo, hi})
+	return nil
 }
 
 // memProxy lets a pooled bus keep its attachment while the backing SimMem changes per run.
@@ -216,6 +228,7 @@ type pooledBus struct {
 	b     *bus.Bus
 	cpu   *cpu65c816.CPU
 	proxy *memProxy
+	over  [][2]uint32 // ranges given to another device during the last run
 }
 
 var pooledBuses = map[int]*pooledBus{}
@@ -233,9 +246,15 @@ func NewBusMachine(env *sim.Env, idx int, mem *SimMem) *Machine {
 	}
 	pb := pooledBuses[idx]
 	pb.proxy.m = mem
+	for _, r := range pb.over {
+		if err := pb.b.Attach(pb.proxy, "sim", r[0], r[1]); err != nil {
+			panic("harness: " + err.Error())
+		}
+	}
+	pb.over = nil
 	pb.cpu.Init(pb.b)
 	pb.b.EA, pb.b.Write = 0, false
-	return &Machine{CPU: cpuA{pb.cpu}, Mem: mem, busA: pb.b}
+	return &Machine{CPU: cpuA{pb.cpu}, Mem: mem, busA: pb.b, busPool: pb}
 }
 
 type pooledAlt struct {
